@@ -44,6 +44,17 @@ type Exec struct {
 	Steps    int
 	Threads  int
 	Diverged string // replay divergence (hard internal error)
+	Log      []string
+}
+
+// TraceOn makes every scheduling point append "T<id> <what>" to Exec.Log.
+var TraceOn bool
+
+// Logf appends a harness message to the execution log when tracing.
+func Logf(format string, a ...any) {
+	if TraceOn && s != nil {
+		s.x.Log = append(s.x.Log, fmt.Sprintf("T%d   "+format, append([]any{s.cur.ID}, a...)...))
+	}
 }
 
 type sched struct {
@@ -242,6 +253,9 @@ func Yield(what string, pred func() bool) {
 	t := sc.cur
 	t.pred, t.what = pred, what
 	t.pts++
+	if TraceOn {
+		sc.x.Log = append(sc.x.Log, fmt.Sprintf("T%d %s", t.ID, what))
+	}
 	sc.x.Steps++
 	if sc.x.Steps > sc.horizon {
 		sc.x.Horizon = true
